@@ -327,8 +327,19 @@ Definition dd_clear (x : ddicts) : ddicts := mkDD 0 DK_none (dd_set x) (dd_last 
 (* ZSTD_DCtx_reset(parameters) since fix b70602d: ZSTD_clearDict, then the DDict hash set is freed *)
 Definition dd_drop (x : ddicts) : ddicts := mkDD 0 DK_none None (dd_last x).
 Definition dd_with_last (x : ddicts) (fid : Z) : ddicts := mkDD (dd_uses x) (dd_kind x) (dd_set x) fid.
-(* ZSTD_DCtx_selectFrameDDict when `refMultipleDDicts && ddictSet`: a frame naming a referenced dictionary switches to it *)
+(* ZSTD_DCtx_selectFrameDDict when `refMultipleDDicts && ddictSet`: a frame naming a referenced dictionary switches to it.
+   Since fixes a891479 / d0ddbff the selection only replaces a REFERENCED DDict that is in use
+   (`dctx->ddict && dctx->dictUses != ZSTD_dont_use && dctx->ddict != dctx->ddictLocal`): never the dictionary loaded into the
+   context, never a prefix (pending or spent).  [dd_select_any] is the code before: any non-NULL dctx->ddict was replaced
+   (and the context's own copy freed) - finding C16-refmulti-select-destroys-loaded-dictionary. *)
+Definition dd_selectable (x : ddicts) : bool :=
+  negb (Z.eqb (dd_uses x) 0) && match dd_kind x with DK_ref _ => true | _ => false end.
 Definition dd_select (multi : bool) (x : ddicts) (fid : Z) : ddicts :=
+  match dd_set x with
+  | Some l => if multi && dd_selectable x && existsb (Z.eqb fid) l then mkDD 2 (DK_ref fid) (dd_set x) (dd_last x) else x
+  | None => x
+  end.
+Definition dd_select_any (multi : bool) (x : ddicts) (fid : Z) : ddicts :=
   match dd_set x with
   | Some l => if multi && dd_hasdict x && existsb (Z.eqb fid) l then mkDD 2 (DK_ref fid) (dd_set x) (dd_last x) else x
   | None => x
@@ -467,9 +478,20 @@ Definition dctx_frame_gen (stale : bool) (d : dctx) : dctx :=
 Definition dctx_bad_gen (stale : bool) (d : dctx) : dctx :=
   dctx_set_stage (dctx_set_dict d (fst (dd_stream_header stale d false 0))) S_mid.
 (* `dfx k`: prepared frame G_k (k = 1 magicless, k = 4 names dictionary 1) streamed, then a session reset *)
+(* G2 has a 4096-byte window, the others 1024.  Since fix b15fdb6 a single-use dictionary (ZSTD_DCtx_refPrefix) is used up by
+   the frame start that succeeds, not by one that fails: for these frames (no content size, hence no single-pass shortcut)
+   the start fails when the frame names a dictionary (the prefix has no ID) or when its window exceeds the limit.
+   [dd_fx_pre]: the dictionary state when the header is complete and the selection has run, before any dictionary is taken. *)
+Definition fx_window (k : Z) : Z := if Z.eqb k 2 then 4096 else 1024.
+Definition dd_fx_pre (stale : bool) (d : dctx) (fid : Z) : ddicts :=
+  dd_select (Z.eqb (d_refMultipleDDicts d) 1) (dd_with_last (dd_stale_select stale d) fid) fid.
 Definition dctx_fx_gen (stale : bool) (d : dctx) (k : Z) : dctx :=
   let fmt_ok := Z.eqb (d_format d) (if Z.eqb k 1 then 1 else 0) in
-  dctx_set_stage (dctx_set_dict d (fst (dd_stream_header stale d fmt_ok (if Z.eqb k 4 then 1 else 0)))) S_init.
+  let fid := if Z.eqb k 4 then 1 else 0 in
+  let pre := dd_fx_pre stale d fid in
+  if fmt_ok && Z.eqb (dd_uses pre) 1 && negb (Z.eqb fid 0 && (fx_window k <=? d_maxWindowSize d))
+  then dctx_set_stage (dctx_set_dict d pre) S_init
+  else dctx_set_stage (dctx_set_dict d (fst (dd_stream_header stale d fmt_ok fid))) S_init.
 
 (* fixture frame f: 0 plain, 1 / 2 compressed with dictionary 1 / 2 (named in the header), 3 / 4 with prefix 1 / 2; all zstd1 *)
 Definition frame_fid (f : Z) : Z := if (f =? 1) || (f =? 2) then f else 0.
@@ -483,10 +505,13 @@ Definition dctx_dec_stream_gen (stale : bool) (d : dctx) (f : Z) : dctx * result
 (* one frame of a one-shot call (ZSTD_decompressMultiFrame): [start] is the DDict the call was entered with.
    [stale_tables]: before fix 70fa663 the frame was decoded with the tables of [start] although ZSTD_decodeFrameHeader had
    switched dctx->ddict to the dictionary named by the frame (finding F30). *)
+(* the pre-selection of ZSTD_decompressMultiFrame (fix 70fa663) uses the predicate of ZSTD_DCtx_selectFrameDDict since the repair of
+   finding C16-refmulti-preselection-ignores-loaded-dictionary *)
+Definition dd_preselectable (x : ddicts) : bool := dd_selectable x.
 Definition dd_oneshot_frame (stale_tables : bool) (multi : bool) (x : ddicts) (start : dkind) (f : Z) : ddicts * dkind * bool :=
   let fid := frame_fid f in
   let x1 := dd_select multi (dd_with_last x fid) fid in
-  let switched := match dd_set x with Some l => multi && dd_hasdict x && existsb (Z.eqb fid) l | None => false end in
+  let switched := match dd_set x with Some l => multi && dd_preselectable x && existsb (Z.eqb fid) l | None => false end in
   let used := if switched && negb stale_tables && (match start with DK_none => false | _ => true end) then DK_ref fid else start in
   (x1, used, dkind_matches used f).
 
@@ -517,7 +542,7 @@ Definition dctx_dec_using_gen (stale_tables : bool) (d : dctx) (k f : Z) : dctx 
    the frame's, so the comparison passed whatever had been loaded (the frame was then decoded with the wrong dictionary:
    the model gives no verdict for that case, see [dd_id_check]). *)
 Definition dd_switched (multi : bool) (x : ddicts) (fid : Z) : bool :=
-  match dd_set x with Some l => multi && dd_hasdict x && existsb (Z.eqb fid) l | None => false end.
+  match dd_set x with Some l => multi && dd_selectable x && existsb (Z.eqb fid) l | None => false end.
 Definition dd_id_check (vouch switched : bool) (loaded fid : Z) : bool :=
   Z.eqb fid 0 || (vouch && switched) || Z.eqb loaded fid.
 Definition dctx_dec_raw_gen (vouch : bool) (d : dctx) (k f : Z) : dctx * result :=
